@@ -394,7 +394,7 @@ func moduleBlock() *schema.BlockSchema {
 						ScopeId: "module", AsType: cty.Number, Description: md("module-kid-total-desc"),
 					},
 				},
-				Targets: &schema.Target{Path: childLP, Range: hcl.Range{Filename: "main.tf", Start: hcl.InitialPos, End: hcl.InitialPos}},
+				Targets: &schema.Target{Path: childLP, Range: hcl.Range{Filename: "kid.tf", Start: hcl.InitialPos, End: hcl.InitialPos}},
 				ImpliedOrigins: schema.ImpliedOrigins{
 					{
 						OriginAddress: lang.Address{lang.RootStep{Name: "module"}, lang.AttrStep{Name: "kid"}, lang.AttrStep{Name: "greeting"}},
